@@ -189,3 +189,16 @@ fn shim_str_ops() {
     let mut i = 0;
     while i < n - off { assert!(t.as_bytes()[i] == raw[off + i]); i += 1; }
 }
+
+/// The contract the prelude assumes for `wrapping_neg` (u8, u16, u32): complete over the full domain.
+#[kani::proof]
+fn shim_wrapping_neg() {
+    let a: u8 = kani::any();
+    assert!(a.wrapping_neg() as u32 == (256 - a as u32) % 256);
+    assert!(a.wrapping_neg() == 0u8.wrapping_sub(a));
+    assert!(a.wrapping_neg() == (255 - a).wrapping_add(1));
+    let b: u16 = kani::any();
+    assert!(b.wrapping_neg() as u32 == (0x1_0000 - b as u32) % 0x1_0000);
+    let c: u32 = kani::any();
+    assert!(c.wrapping_neg() as u64 == (0x1_0000_0000u64 - c as u64) % 0x1_0000_0000);
+}
